@@ -137,9 +137,7 @@ class CarbonClientProtocol(object):
         instrumentation.prior_stats.get('metricsReceived', 0)))
 
     self.sendDatapointsNow(self.factory.takeSomeFromQueue())
-    if (self.factory.queueFull.called and queueSize < SEND_QUEUE_LOW_WATERMARK):
-      if not self.factory.queueHasSpace.called:
-        self.factory.queueHasSpace.callback(queueSize)
+    self.factory.checkQueueSpace()
     if self.factory.hasQueuedDatapoints():
       self.factory.scheduleSend()
 
@@ -341,6 +339,14 @@ class CarbonClientFactory(with_metaclass(PluginRegistrar, ReconnectingClientFact
     if not self.queue:
       self.queueEmpty.callback(0)
       self.queueEmpty = Deferred()
+
+  def checkQueueSpace(self):
+    """Signal that the queue has space again once it has been reported full
+    and has since fallen below the low watermark."""
+    queueSize = self.queueSize
+    if self.queueFull.called and queueSize < SEND_QUEUE_LOW_WATERMARK:
+      if not self.queueHasSpace.called:
+        self.queueHasSpace.callback(queueSize)
 
   def enqueue(self, metric, datapoint):
     self.queue.append((metric, datapoint))
